@@ -32,7 +32,7 @@ var c06Expand = []string{
 }
 
 func (c06) counts(tier string) (cur, ngen int) {
-	cur = len(gen.Curated) + len(gen.ArithCurated) + len(c06Expand) + len(c06Pairs)
+	cur = len(gen.Curated) + len(gen.ArithCurated) + len(c06Expand) + len(c06Pairs) + 2
 	if tier == "thorough" {
 		return cur, 60000
 	}
@@ -74,11 +74,15 @@ func (p c06) Gen(seed uint64, tier string, idx int) (*Case, bool) {
 		return &Case{Kind: "expand", Src: c06Expand[idx], Vars: [][2]string{{"y", "7"}}, Note: "curated-expand", DFS: dfs}, true
 	}
 	idx -= len(c06Expand)
+	if idx < len(c06Pairs)+2 && idx >= len(c06Pairs) {
+		// a source of an unsupported type: an error, and nothing left behind
+		return &Case{Kind: "parse", Src: "a b\n", Reader: gosim.ReaderPlan{Kind: []string{"invalid-int", "invalid-nil"}[idx-len(c06Pairs)], FaultAt: -1}, Note: "invalid-source-type"}, true
+	}
 	if idx < len(c06Pairs) {
 		pr := c06Pairs[idx]
 		return &Case{Kind: pr[0], Src: pr[1], Src2: pr[2], Vars: [][2]string{{"y", "abc"}, {"z", "zz"}}, Note: "curated-two-callers", DFS: dfs / 2}, true
 	}
-	idx -= len(c06Pairs)
+	idx -= len(c06Pairs) + 2
 	src := gen.FromSeed(gosim.Mix(seed, 0xC06, uint64(idx)))
 	c := p.build(src)
 	c.GenTape = src.Rec
